@@ -95,11 +95,14 @@ class CallMixin:
         self.unsupported(node, "call of unknown function " + name)
 
     def resolve_user(self, name, cls=None):
+        b = self.cur_bind().get("call:" + name)
+        if b:
+            return api.REG[b]
         key = (name, cls)
         if key in self._resolve_cache:
             return self._resolve_cache[key]
         res = None
-        cands = api.by_short_name(name)
+        cands = [c for c in api.by_short_name(name) if "#" not in c.qual or c.qual.endswith("#default")]
         if cls is not None:
             cc = [c for c in cands if c.name == cls + "." + name]
             if cc:
@@ -498,6 +501,9 @@ class CallMixin:
             if c is None:
                 self.unsupported(node, "method %s.%s has no contract" % (recv.ty.rname, attr))
             args, kw = self.args_of(node, st)
+            fd, _, _ = self.callee_def(c)
+            if any(isinstance(d, ast.Name) and d.id == "staticmethod" for d in fd.decorator_list):
+                return self.call_user(c, args, kw, node, st, None)
             return self.call_user(c, [recv] + args, kw, node, st, f.value)
         if isinstance(recv, VFunc) and recv.desc.startswith("class:"):
             cname = recv.desc[6:]
